@@ -35,7 +35,7 @@ func (d *driver) probe(s *spyStore, sid string, filter string) map[string]any {
 	out := map[string]any{"known": false, "ex": false, "auth": false, "tok": false}
 	if p := oidc.VerifProbeMemory(s.real, sid); p.Known {
 		out["known"], out["ex"], out["auth"], out["tok"] = true, p.Ex, p.Auth, p.Tok
-		if p.Ex {
+		if p.Ex && p.TimesKnown {
 			out["added"], out["accessed"] = d.relSec(p.Added), d.relSec(p.Accessed)
 		}
 		return out
@@ -482,6 +482,12 @@ func (d *driver) runScenario(sc *Scenario) (err error) {
 		}
 	}
 	if err = d.setup(sc.Cfg); err != nil {
+		if strings.Contains(err.Error(), "config rejected") && hasDuplicateChainNames(sc.Cfg) {
+			// a loader may refuse chains that share a name (rejecting is always allowed): the scenario does not apply
+			d.rec.emit(map[string]any{"ev": "reset", "scenario": sc.ID, "filters": []any{}, "tags": []any{"skipped:loader-rejects-equal-chain-names"}, "triggerRules": false})
+			d.rec.emit(map[string]any{"ev": "end"})
+			return nil
+		}
 		return err
 	}
 	d.rec.emit(d.cfgEvent(sc))
@@ -599,4 +605,20 @@ func runFile(in, out, tmp string) (int, error) {
 		n++
 	}
 	return n, sc.Err()
+}
+
+
+func hasDuplicateChainNames(c CfgSpec) bool {
+	seen := map[string]bool{}
+	for _, f := range c.Filters {
+		n := f.ChainName
+		if n == "" {
+			n = f.Name
+		}
+		if seen[n] {
+			return true
+		}
+		seen[n] = true
+	}
+	return false
 }
